@@ -236,8 +236,10 @@ class RecvRTL2SendCL( Component ):
     def up_send_cl():
       s.sent_msg = None
       if s.recv.en:
-        s.send( s.recv.msg )
-        s.sent_msg = s.recv.msg
+        # The receiver may keep the message: hand over a copy, not the
+        # value object of the signal, which changes with the signal
+        s.sent_msg = clone_deepcopy( s.recv.msg )
+        s.send( s.sent_msg )
 
     s.add_constraints( U( up_recv_rtl_rdy ) < U( up_send_cl ) )
 
